@@ -85,6 +85,8 @@ def run_case(case, ctx):
         return
     for si, gi, what in log:
         ctx.cell('call:' + what.split(':')[0])
+        if what == 'data-and-index-file-in-different-directories':
+            ctx.violation('writer/relative-path/data-and-index-file-in-different-directories', {'session': si, 'program': prog.describe()})
         if what.startswith('input-array-modified'):
             ctx.violation('writer-modified-the-callers-array/%s' % what.split(':', 1)[1].split(':')[-1], {'kind': what, 'session': si, 'segment': gi, 'program': prog.describe()})
     ctx.count('containers:' + prog.container)
@@ -102,7 +104,7 @@ def run_case(case, ctx):
         # the writer's own index file sits beside the data file: reading by path goes through it
         import os
         from nptdms import TdmsFile
-        path = os.path.join(ctx.tmpdir, prog.fname)
+        path = getattr(prog, 'result_path', None) or os.path.join(ctx.tmpdir, prog.fname)
         ctx.count('read_back_through_writer_index')
         try:
             a = C.snapshot(TdmsFile.read(io.BytesIO(data)))
